@@ -314,8 +314,11 @@ def c16_check(tier, replay=None):
     serial_n, serial_bad = serial_pass(native, sd, serial_total)
     if serial_bad:
         idx = serial_bad[0]
-        scen = scenario_json(native, ["--seed", str(sd), "--index", str(idx), "--class",
-                                      ["race", "general", "pool", "late", "shared", "deep"][idx % 6]])
+        if idx >= 1000000:  # role classes of the native pass
+            cls, real_idx = ("owner", idx - 2000000) if idx >= 2000000 else ("rounds", idx - 1000000)
+        else:
+            cls, real_idx = ["race", "general", "pool", "late", "shared", "deep"][idx % 6], idx
+        scen = scenario_json(native, ["--seed", str(sd), "--index", str(real_idx), "--class", cls])
         small = minimise_serial(native, scen, time.time() + 60)
         _, outs = serial_differs(native, small)
         rep.violation("serial:thread-identity", {"property": "C16", "engine": "native-serial", "features": "sync",
@@ -347,6 +350,15 @@ def c16_check(tier, replay=None):
                 # thousands of distinct elements projected / filtered / flattened: chunked or
                 # helper-thread evaluation inside the library must keep the order
                 ("sync", "bigproj", 9, (0, 3), "0.1"),
+                # the main thread (which compiled the shared expressions) searches them too
+                ("sync", "owner", 10, (0, 4), "0.1"),
+                # long-lived threads; the main thread drops and re-compiles generations of
+                # shared expressions that differ only in an expression reference's operand
+                ("sync", "rounds", 11, (0, 3), "0.1"),
+                # the same texts compiled in lockstep by four threads, half of them failing
+                # to parse near the end of a long text
+                ("sync", "badpool", 12, (0, 8), "0.1"),
+                ("sync", "badpool", 12, (8, 14), "0.02"),
                 ("sync,specialized", "race", 4, (0, 3), "0.3"),
                 ("sync,specialized", "general", 6, (0, 4), "0.05")]
     else:
@@ -369,6 +381,10 @@ def c16_check(tier, replay=None):
         plan.append(("sync", "manytexts", 230, (0, 8), "0.1"))
         plan.append(("sync", "longrun", 240, (0, 4), "0.1"))
         plan.append(("sync", "bigproj", 250, (0, 8), "0.1"))
+        for k, cls in enumerate(("owner", "rounds", "badpool")):
+            for j, rate in enumerate(("0.1", "0.02", "0.5")):
+                plan.append(("sync", cls, 260 + 3 * k + j, (0, 12), rate))
+            plan.append(("sync,specialized", cls, 270 + k, (0, 8), "0.1"))
         plan.append(("sync", "bigproj", 251, (0, 8), "0.5"))
     execs = 0
     orders = set()
